@@ -2,6 +2,7 @@
 From Coq Require Import NArith List Bool.
 From V Require Import U64 Extracted Ledger LedgerCheck Auth AuthProofs.
 From V Require LedgerConservation.
+From V Require BlockAuth BlockAuthProofs.
 Import ListNotations.
 Local Open Scope N_scope.
 Module LC := LedgerConservation.
@@ -59,3 +60,31 @@ Example C05_nonvacuous :
   fst (apply_signed 10 0 (MDeleteOrder 9 1) s) = true /\ apply_signed 11 0 (MDeleteOrder 9 1) s = (false, s) /\
   apply_signed 0 0 (MSend 10 11 5) s = (false, s).
 Proof. exact auth_nonvacuous. Qed.
+
+(* ---- the block level.  ApplyTransactions looks at signatures only in its FIRST pass (CheckTx of every transaction against the
+   state at the start of the block, signature jobs handed to a batch verifier whose positions are mapped back to transaction
+   indices); the second pass executes with a no-op verifier.  That only authorized transactions execute is therefore a non-local
+   invariant of the two passes: for EVERY block, a transaction reaches the second pass exactly when its CheckTx passed and all its
+   signature jobs verify - no transaction slips through unchecked, none is failed for another transaction's bad signature. *)
+Module BA := BlockAuth.
+Theorem C05_block_only_authorized_transactions_execute : forall (txs : list BA.tx) (stateful_ok : nat -> bool) (i : nat),
+  In i (BA.executed txs stateful_ok) -> (i < length txs)%nat /\ BA.authorized (nth i txs BA.no_tx) = true.
+Proof. exact BlockAuthProofs.executed_authorized. Qed.
+Print Assumptions C05_block_only_authorized_transactions_execute.
+Theorem C05_block_second_pass_iff_authorized : forall (txs : list BA.tx) (i : nat), (i < length txs)%nat ->
+  (BA.reaches_pass2 txs i = true <-> BA.authorized (nth i txs BA.no_tx) = true).
+Proof. exact BlockAuthProofs.reaches_pass2_iff. Qed.
+Print Assumptions C05_block_second_pass_iff_authorized.
+(* the two seeded changes of this kind, as refuted variants: batch positions mapped to the neighbouring transaction; a first-pass
+   failure forgotten because "an earlier transaction of the block may create what this one needs" *)
+Theorem C05_shifted_slots_let_a_forgery_through :
+  exists txs i, (i < length txs)%nat /\ BA.authorized (nth i txs BA.no_tx) = false /\
+                existsb (Nat.eqb i) (BA.failed_set_shifted txs) = false.
+Proof. exact BlockAuthProofs.shifted_lets_a_forgery_through. Qed.
+Theorem C05_forgotten_first_pass_failure_lets_an_unchecked_transaction_through :
+  exists forget txs i, (i < length txs)%nat /\ BA.t_ok (nth i txs BA.no_tx) = false /\
+                existsb (Nat.eqb i) (BA.failed_set_forgetful forget txs) = false.
+Proof. exact BlockAuthProofs.forgetful_lets_an_unchecked_transaction_through. Qed.
+Example C05_block_nonvacuous :
+  BA.executed [BA.mkTx true [true]; BA.mkTx true [false]; BA.mkTx false []; BA.mkTx true [true; true]; BA.mkTx false [true]; BA.mkTx true [true; false]] (fun _ => true) = [0%nat; 3%nat].
+Proof. vm_compute. reflexivity. Qed.
